@@ -18,15 +18,15 @@ CHECKS = {
          "Each input record is sent to a live server; emitted bytes, handler invocation counts and a follow-up probe are judged by a reference classifier written from the spec/README; the variant product is exhaustive in the thorough tier, sampled in quick.", INPUT),
  "C03": ("exploration", "runtime monitor: handler enter/exit event log checked at synctest quiescent points over enumerated scripts x release orders x delay-bounded schedules, race detector",
          "Ordering oracle (notification exit before later enter) and work-conservation oracle at every quiescent point of every execution; each hook visit parked in turn.", BUBBLE),
- "C04": ("exploration", "runtime monitor: raw scripted peer with unique reply tokens vs values returned by real Client.Call/Batch, enumerated reply permutations/partitions/extras, pending-set snapshot, delay-bounded schedules",
+ "C04": ("exploration", "runtime monitor: raw scripted peer with unique reply tokens vs values returned by real Client.Call/Batch, enumerated reply permutations/partitions/extras, pending-set snapshot, delay-bounded schedules; rendezvous transport with a single-threaded peer under a mutex-deadlock detector (stop-the-world stack snapshots)",
          "All permutations and groupings of replies (plus duplicates, malformed, unknown ids, server requests) for small operation sets; each slot must return the first token sent for its id.", BUBBLE),
- "C05": ("fault_enumeration", "runtime monitor: state-set reference model filtered by observed API returns / hooks / transmissions after every event; k-th Send and k-th Recv failure enumerated for every history",
+ "C05": ("fault_enumeration", "runtime monitor: state-set reference model filtered by observed API returns / hooks / transmissions after every event; k-th Send and k-th Recv failure enumerated for every history; rendezvous transport with a single-threaded peer under a mutex-deadlock detector",
          "Histories of replies, cancellations, deadlines, Close, EOF, transport failures and races are executed against the real client with a failure injected at every channel operation; exactly-once return, OnCancel/OnStop accounting and leak-freedom are decided at quiescent points.", BUBBLE),
- "C06": ("exploration", "runtime monitor: slot counter at the library's own invoke hook sites, checked online and at quiescent points; enumerated batch shapes, release orders, CancelRequest of waiters",
+ "C06": ("exploration", "runtime monitor: slot counter at the library's own invoke hook sites, checked online and at quiescent points; enumerated batch shapes, release orders, CancelRequest of waiters; back-pressure (held Send) with a mutex-deadlock detector; limits above NumCPU; deadlines with causes in virtual time",
          "The number of invocations holding a semaphore slot is bounded online and equals min(limit, runnable) at every quiescent point; cancelled waiters never run.", BUBBLE),
- "C07": ("exploration", "runtime monitor: sequential reservation reference model (state set) vs reserved-id snapshot, replies and handler contexts after every operation of enumerated histories",
+ "C07": ("exploration", "runtime monitor: sequential reservation reference model (state set) vs reserved-id snapshot, replies and handler contexts after every operation of enumerated histories; reply held inside Send / bookkeeping parked at hook points for the two edges of the reservation window",
          "All short histories of calls with reused ids, batches, CancelRequest, gate releases and parked dispatch; the observed reserved-id set, replies and handler contexts must be admissible under the model at every step.", BUBBLE),
- "C08": ("fault_enumeration", "runtime monitor + crash attribution: scenarios x stop cause injected at every Recv/Send x channel flavour x post-stop traffic x restart, judged at quiescent points; worker death = violation",
+ "C08": ("fault_enumeration", "runtime monitor + crash attribution: scenarios x stop cause injected at every Recv/Send x channel flavour x post-stop traffic x restart (second session ended by Stop), channel handed over as a non-comparable value, judged at quiescent points; worker death = violation",
          "A failure is injected at every channel operation of each scenario (plus Stop and peer close) and the shutdown contract (status, handler completion, context cancellation, notification delivery, no leak, restart) is checked.", BUBBLE),
  "C09": ("exploration", "runtime monitor: push reference model vs Callback returns, emitted records and outstanding-callback snapshot after every operation of enumerated histories (virtual time for deadlines)",
          "All short histories of callbacks, replies (late, duplicate, unknown), cancellations, deadlines, colliding client calls and Stop; emitted records must be exactly those the pushes and calls account for.", BUBBLE),
@@ -34,7 +34,7 @@ CHECKS = {
          "The channel the library is given detects a second concurrent Send/Recv, Send||Close, a second Close and incomplete records at the instant they happen, under stress and under every single-hook delay.", "trusts the Go race detector and the harness channel; overlap is only detected when it actually occurs in an explored execution"),
  "C11": ("exploration", "runtime monitor: chunk-controlled reader under every cut set; received records compared byte for byte with sent records; deterministic two-thread schedules with one operation suspended inside its transport call while a sibling channel of the same Framing value or the other direction of the same channel runs",
          "Round trip of pipelined record sequences through every framing under exhaustive small cut sets and boundary sizes; channels used in company (siblings, duplex) must not disturb each other.", INPUT),
- "C12": ("fault_enumeration", "runtime monitor: three reference decoders vs Recv results on exhaustive token strings, absurd lengths, every truncation point; crash attribution by journal",
+ "C12": ("fault_enumeration", "runtime monitor: three reference decoders vs Recv results on exhaustive token strings, absurd lengths, every truncation point, bodies around 4 MiB, channel lifecycles (exhausted / closed / successors); crash attribution by journal",
          "Every token string up to the bound, every truncation point of valid streams and absurd lengths are decoded by the real framings and compared with reference decoders; panics and fatal errors are violations.", INPUT),
  "C13": ("exploration", "runtime monitor: every record captured on the instrumented channel / bridge body validated and parsed back against the generated values; ParseRequests vs reference classifier and differentially vs a live server; concurrent emission stress; values that cannot be encoded (whatever is emitted must still be well formed)",
          "Generated method names, params, results and errors are driven through every emitting path of the real library; the bytes on the wire must be one-line valid UTF-8 JSON-RPC and parse back to what was generated; ParseRequests flags exactly the structurally invalid members.", INPUT),
@@ -50,7 +50,7 @@ CHECKS = {
          "Bodies from the request-variant product and concurrent POSTs sharing ids are answered by the real bridge; each caller must get exactly its own responses with its own id text, invalid members their own errors, refused requests no handler run.", BUBBLE),
  "C19": ("exploration", "runtime monitor: reference query-value typer vs ParseQuery; live Getter status mapping; HTTP-channel scenarios in synctest bubbles with body-close accounting and leak scan",
          "Exhaustive short query values plus grammar-directed ones; Getter status/body; jhttp.Channel equivalence with a direct connection and cleanup at Close.", BUBBLE),
- "C20": ("exploration", "runtime monitor: reference model of Loop vs logs of instrumented services/accepter at quiescent points; enumerated scripts, delay-bounded schedules, NetAccepter over in-memory listener",
+ "C20": ("exploration", "runtime monitor: reference model of Loop vs logs of instrumented services/accepter at quiescent points; enumerated scripts, delay-bounded schedules, NetAccepter over in-memory listener (half-closable connections), accept errors of seven flavours, failing connections, exactly one Close per served channel",
          "All short scripts of connects, closes, cancels, accepter errors and Assigner failures; Finish exactly once after exit, Loop returns last.", BUBBLE),
 }
 PENDING = {}
